@@ -486,9 +486,17 @@ func c08Trace(work, line string, lineNo int, r *rng, every int) {
 		overflow                   bool
 	}
 	multiStepDays, overflowDays, fracDays, fracHighDays, dayChecked := 0, 0, 0, 0, 0
+	// the season: ETC0 (potential) is zeroed at sowing, ETAG/TRAG (actual ET / transpiration booked by Water) at sowing and
+	// at harvest; Nitro copies the three into the crop record at harvest
+	var npre struct {
+		akf              int
+		etc0, etag, trag float64
+	}
+	harvests, fallowHarvests := 0, 0
+	lastHarvestZeit := -1
 	maxBookedShare := 0.0
 	// hypotheses of the theorems (Prop_C08.evatra_wf) observed on the real states
-	hypW, hypWudich, hypLumday, lukritZeroDays, lukritZeroWetDays := 0, 0, 0, 0, 0
+	hypBad, lukritZeroDays, lukritZeroWetDays, maxWurz20 := 0, 0, 0, 0
 	minLupor := math.Inf(1)
 	hermes.VerifProbe = func(stage string, zeit, subd int, wdt float64, g *hermes.GlobalVarsMain, w *hermes.WaterSharedVars, n *hermes.NitroSharedVars) {
 		switch stage {
@@ -501,6 +509,7 @@ func c08Trace(work, line string, lineNo int, r *rng, every int) {
 				return
 			}
 			pre.ok = false
+			hypBad += c08Hypotheses(fmt.Sprintf("trace line=%d zeit=%d meth=%d", lineNo, zeit, g.ETMETH), &pre.g, g, cropBranch(&pre.g, zeit))
 			em := every <= 1 || r.intn(every) == 0
 			res := evatraCase("trace", &pre.g, &pre.l, zeit, em, jobj{"line": lineNo})
 			where := fmt.Sprintf("trace line=%d zeit=%d meth=%d", lineNo, zeit, g.ETMETH)
@@ -512,16 +521,10 @@ func c08Trace(work, line string, lineNo int, r *rng, every int) {
 			if em {
 				emitted++
 			}
-			if !(g.W[0] > g.WMIN[0]/3) {
-				hypW++
-			}
 			if res.crop {
 				cropDays++
-				for i := 0; i < g.N; i++ {
-					if !(pre.g.WUDICH[i] >= 0) {
-						hypWudich++
-						break
-					}
+				if g.N == 20 && pre.g.WURZ > maxWurz20 {
+					maxWurz20 = pre.g.WURZ
 				}
 				lukrit := pre.g.LUKRIT[pre.g.INTWICK.Index]
 				lupor := (g.PORGES[0] + g.PORGES[1] + g.PORGES[2] - g.WG[0][0] - g.WG[0][1] - g.WG[0][2]) / 3
@@ -531,9 +534,6 @@ func c08Trace(work, line string, lineNo int, r *rng, every int) {
 				}
 				if !(lukrit > 0) && lupor < lukrit {
 					lukritZeroWetDays++
-				}
-				if pre.g.LUMDAY < 0 {
-					hypLumday++
 				}
 			}
 			// the replay is the real day
@@ -562,6 +562,22 @@ func c08Trace(work, line string, lineNo int, r *rng, every int) {
 			day.gainPF += g.PFTRANS - day.pf0
 			day.gainETAG += g.ETAG - day.etag0
 			day.gainTRAY += g.TRAY - day.tray0
+		case "nitro-pre":
+			npre.akf, npre.etc0, npre.etag, npre.trag = g.AKF.Index, g.ETC0, g.ETAG, g.TRAG
+		case "nitro":
+			if g.AKF.Index > npre.akf && npre.akf >= 1 { // harvest of a real crop: the values Nitro has just written to the crop record
+				harvests++
+				a := npre.akf
+				if lastHarvestZeit >= 0 && g.SAAT[a]-lastHarvestZeit > 1 {
+					fallowHarvests++
+				}
+				lastHarvestZeit = zeit
+				tol := 1e-9 * (1 + math.Abs(npre.etc0))
+				if !(npre.trag >= -tol && npre.trag <= npre.etag+tol && npre.etag <= npre.etc0+tol && finite(npre.etc0, npre.etag, npre.trag)) {
+					oracleFail("season-aet-above-pet trace line=%d zeit=%d crop-index=%d sown=%d TraG=%v ETaG=%v ETcG=%v (cm) excess=%g",
+						lineNo, zeit, a, g.SAAT[a], npre.trag, npre.etag, npre.etc0, npre.etag-npre.etc0)
+				}
+			}
 		case "dayend":
 			if day.ok {
 				dayChecked++
@@ -594,11 +610,51 @@ func c08Trace(work, line string, lineNo int, r *rng, every int) {
 	hermes.VerifProbe = nil
 	emit(jobj{"k": "c08run", "line": lineNo, "success": rr.Success, "err": rr.Err, "days": days, "replayed": replayed,
 		"emitted": emitted, "crop_days": cropDays, "skipped": skipped,
-		"hyp":         jobj{"w0_le_wmin3": hypW, "wudich_negative": hypWudich, "lumday_negative": hypLumday},
+		"harvests": harvests, "harvests_after_a_fallow": fallowHarvests, "hyp_violations": hypBad, "max_wurz_20_layer_profiles": maxWurz20,
 		"day_checked": dayChecked, "multi_step_days": multiStepDays, "rain_overflow_days": overflowDays,
 		"rain_overflow_fractional_zsr_days": fracDays, "rain_overflow_zsr_fraction_ge_half_days": fracHighDays,
 		"max_booked_share_of_pet": finiteOrNil(maxBookedShare),
 		"lukrit_zero_days":        lukritZeroDays, "lukrit_zero_topsoil_above_pore_volume_days": lukritZeroWetDays, "min_lupor": finiteOrNil(minLupor)})
+}
+
+// c08Hypotheses: the hypotheses of the theorems (Prop_C08.evatra_wf) evaluated on a real pre-Evatra state; every test is
+// written as !(ok) so that a NaN fails it.  gpost = the state after Evatra (WG[0] after the start-of-day copy).
+func c08Hypotheses(where string, gpre, gpost *hermes.GlobalVarsMain, crop bool) int {
+	bad := 0
+	fail := func(format string, a ...interface{}) {
+		bad++
+		oracleFail("hypothesis-violated %s "+format, append([]interface{}{where}, a...)...)
+	}
+	if !(gpost.W[0] > gpost.WMIN[0]/3) || !finite(gpost.W[0], gpost.WMIN[0]) {
+		fail("what=top-layer-field-capacity-not-above-dryness-limit w=%v wmin=%v", gpost.W[0], gpost.WMIN[0])
+	}
+	for i := 0; i < gpost.N; i++ {
+		if !finite(gpost.WG[0][i], gpost.WMIN[i], gpost.W[i], gpost.WNOR[i], gpost.PORGES[i]) {
+			fail("what=soil-state-not-finite layer=%d", i+1)
+			break
+		}
+	}
+	if !(finite(gpre.GRW)) {
+		fail("what=groundwater-level-not-finite grw=%v", gpre.GRW)
+	}
+	if crop {
+		for i := 0; i < gpre.N; i++ {
+			if !(gpre.WUDICH[i] >= 0 && finite(gpre.WUDICH[i])) {
+				fail("what=root-density-negative-or-not-finite layer=%d wudich=%v wurz=%d", i+1, gpre.WUDICH[i], gpre.WURZ)
+				break
+			}
+		}
+		if !(gpre.LAI >= 0 && finite(gpre.LAI)) { // 0 < exp(-LAI/2) <= 1
+			fail("what=lai-negative-or-not-finite lai=%v", gpre.LAI)
+		}
+		if !(gpre.LUMDAY >= 0) {
+			fail("what=air-shortage-days-negative lumday=%d", gpre.LUMDAY)
+		}
+		if !(gpre.WURZ >= 0 && gpre.WURZ <= gpre.N) {
+			fail("what=root-depth-outside-profile wurz=%d n=%d", gpre.WURZ, gpre.N)
+		}
+	}
+	return bad
 }
 
 // c08Zsr mirrors the sub-step demand of the day loop (run.go:499-527) on the post-Evatra state: the value of ZSR and
